@@ -128,3 +128,11 @@ func ReadFileOrBase64(name string) ([]byte, error) {
 
 	return os.ReadFile(name)
 }
+
+// redactDataURI hides inline key material in log messages.
+func redactDataURI(name string) string {
+	if strings.HasPrefix(name, "data:") {
+		return "data:xxxxx"
+	}
+	return name
+}
